@@ -291,7 +291,7 @@ def _gq_from(amat, cen, const):
 # macrobodies
 # --------------------------------------------------------------------------
 MACRO_FAMILIES = {
-    'box': ['aligned', 'rotated', 'lefthanded'],
+    'box': ['aligned', 'rotated', 'lefthanded', 'aligned-xyz-signs'],
     'rpp': ['any'],
     'sph': ['any'],
     'rcc': ['aligned', 'rotated', 'negaxis'],
@@ -322,8 +322,14 @@ def _r3(vec):
 def macrobody(rng, kind, family):
     k = kind
     base = np.array([rnd(rng, -3, 3) for _ in range(3)])
+    if k == 'box' and family == 'aligned-xyz-signs':
+        # edges along x, y, z in that order, every sign combination
+        lens = [rnd(rng, 1.5, 5), rnd(rng, 1, 4), rnd(rng, 0.8, 3)]
+        vecs = [np.eye(3)[i] * lens[i] * (1 if rng.random() < 0.5 else -1)
+                for i in range(3)]
+        return _r3(base) + _r3(vecs[0]) + _r3(vecs[1]) + _r3(vecs[2])
     if k == 'box':
-        rot = _frame(rng, family != 'aligned')
+        rot = _frame(rng, family not in ('aligned',))
         lens = [rnd(rng, 1.5, 5), rnd(rng, 1, 4), rnd(rng, 0.8, 3)]
         vecs = [rot[i] * lens[i] * (1 if rng.random() < 0.7 else -1)
                 for i in range(3)]
@@ -538,6 +544,29 @@ def tr_card(rng, tid, motion, spelling='12'):
         ent = [flat[0], flat[1], flat[2], flat[3], None, None, flat[6], None,
                None]
         return M.TrCard(tid, org, ent, motion=motion)
+    if spelling.startswith('6-rows-') or spelling.startswith('6-cols-'):
+        # two rows / columns given, the third (possibly the middle one) J'd
+        keep = [int(ch) - 1 for ch in spelling[-2:]]
+        ent = [None] * 9
+        for i in range(3):
+            for j in range(3):
+                sel = i if 'rows' in spelling else j
+                if sel in keep:
+                    ent[3 * i + j] = flat[3 * i + j]
+        return M.TrCard(tid, org, ent, motion=motion)
+    if spelling.startswith('5-r'):
+        # one full row i and one full column j ("5-r2c3")
+        row, col = int(spelling[3]) - 1, int(spelling[5]) - 1
+        ent = [None] * 9
+        for k in range(3):
+            ent[3 * row + k] = flat[3 * row + k]
+            ent[3 * k + col] = flat[3 * k + col]
+        return M.TrCard(tid, org, ent, motion=motion)
+    if spelling == '13-jumps':
+        # all thirteen positions with J for entries that are left to the
+        # completion rules (third vector) and m = 1
+        ent = flat[:6] + [None, None, None]
+        return M.TrCard(tid, org, ent, mflag=1, motion=motion)
     raise ValueError(spelling)
 
 
